@@ -10,7 +10,7 @@ import pyfvtool as pf
 
 from ..oracles import CLASSES, NDIM, SIDES, AXKIND, Geom
 from .. import gen
-from ..common import SpySolver, residual_err, nerr, interior_index, to_list, TOL
+from ..common import SpySolver, residual_err, nerr, interior_index, to_list, TOL, solve_with
 from ..bcrel import check_ghosts, axis_periodic, side_layers
 
 ID = 'C03'
@@ -24,8 +24,9 @@ ASSUMPTIONS = ['an axis counts as declared periodic when either of its two sides
 KEY_PER = 'rows-vs-wrap/periodic-axis-unequal-end-cells'
 
 
-def build_problem(rng, cls, nmax, force_periodic=None):
-    faces, meta = gen.gen_grid(rng, cls, nmin=1, nmax=nmax)
+def build_problem(rng, cls, nmax, force_periodic=None, geo=None):
+    gfam, gopts = gen.geo_opts(rng, geo)
+    faces, meta = gen.gen_grid(rng, cls, nmin=1 if not geo else 2, nmax=nmax, family=gfam, opts=gopts)
     g = Geom(cls, faces)
     capable = [k for k in range(g.nd) if gen.periodic_ok(cls, k)]
     if force_periodic is None:
@@ -114,6 +115,19 @@ def interior_consistency(g, phi, spy, bad, maxerr, cov, label):
     # divided by the ghost coefficient (1e-3-scaled Dirichlet rows amplify it 2000x): rounding level here is up to ~1e-9, defects
     # give >= 1e-3, so this clause uses 1e-7
     CTOL = 1e-7
+    # ... and relative to a boundary row that is tiny next to the interior rows (nanometre cells: D/h^2 ~ 1e16 next to b = 1) the
+    # same backward error is amplified by the ratio of the row scales: the clause is evaluated with that allowance and skipped
+    # (counted) where the allowance would exceed 1e-4
+    full_shape = g.full_shape()
+    mask = np.ones(full_shape, dtype=bool)
+    mask[tuple(slice(1, -1) for _ in full_shape)] = False
+    pos = (absmv(M, xin) + np.abs(b))[np.flatnonzero(mask.ravel())]
+    pos = pos[pos > 0]
+    amp = float(np.max(absmv(M, xin) + np.abs(b))) / float(np.min(pos)) if pos.size else 1.0
+    CTOL = CTOL + 64.0 * len(sc) * np.finfo(float).eps * amp
+    if CTOL > 1e-4:
+        cov['interior_consistency_skipped_row_scaling'] = cov.get('interior_consistency_skipped_row_scaling', 0) + 1
+        return
     if not (e <= CTOL):
         cells = [np.unravel_index(int(i), g.dims) for i in np.flatnonzero(e_rows > CTOL)]
         unequal = [k for k in range(g.nd) if axis_periodic(phi.BCs, k) and abs(g.w[k][0] - g.w[k][-1]) > 1e-12 * max(g.w[k][0], g.w[k][-1])]
@@ -152,12 +166,20 @@ def run_case(case):
     rng = gen.rng_for(*case['seed'])
     cls = case['cls']
     nmax = case.get('nmax', 4)
-    faces, meta, g, spec = build_problem(rng, cls, nmax, case.get('periodic'))
+    faces, meta, g, spec = build_problem(rng, cls, nmax, case.get('periodic'), geo=case.get('geo'))
     m = gen.build_mesh(pf, cls, faces)
     style = case.get('style', 'mixed')
     vals, ffam = gen.cell_field(rng, g.dims)
     bad, maxerr, cov = [], {}, {}
     cov['cases:' + cls] = 1
+    if case.get('geo'):
+        cov['geo:' + case['geo']] = 1
+    vdt = case.get('valdtype')
+    if vdt:
+        # interior values handed over as an integer / boolean array (an index field, a 0/1 mask): the boundary values are
+        # still real numbers determined by the boundary relation
+        vals = (np.round(vals) % 5 - 2).astype({'int64': np.int64, 'int32': np.int32}[vdt]) if vdt != 'bool' else (vals > np.median(vals))
+        cov['valdtype:' + vdt] = 1
 
     def ghosts(phi, label):
         b, me, cv = check_ghosts(g, phi._value, phi.BCs)
@@ -179,7 +201,7 @@ def run_case(case):
         rows_check(g, phi, bad, maxerr, cov, 'constructor')
         plotprofile_check(g, phi, bad, cov)
         # (2) value edit then apply_BCs
-        phi2.value = vals * 0.5 + 1.0
+        phi2.value = np.asarray(vals, dtype=float) * 0.5 + 1.0
         phi2.apply_BCs()
         ghosts(phi2, 'apply_BCs')
         # (3) solvePDE
@@ -191,7 +213,7 @@ def run_case(case):
             uarr, _ = gen.face_arrays(rng, g, 'sign')
             terms.append(pf.convectionUpwindTerm(gen.facevar(pf, m, [0.2 * a for a in uarr])))
         spy = SpySolver()
-        pf.solvePDE(phi, terms, externalsolver=spy)
+        solve_with(pf, spy, phi, terms, default_path=bool(case['seed'][-1] % 2))
         ok = bool(np.all(np.isfinite(phi._value[tuple(slice(1, -1) for _ in range(g.nd))])))
         if ok:
             ghosts(phi, 'solvePDE')
@@ -311,7 +333,12 @@ def plan(tier, seed):
         for sub in subsets:
             for style in (['both'] if not sub else ['left', 'right', 'both', 'mixed']):
                 for rep in range(per):
-                    cases.append({'cls': cls, 'periodic': sub, 'style': style, 'seed': [seed, 3, ci, i], 'nmax': 4 if nd < 3 else 3})
+                    c_ = {'cls': cls, 'periodic': sub, 'style': style, 'seed': [seed, 3, ci, i], 'nmax': 4 if nd < 3 else 3}
+                    if rep % 6 == 4:
+                        c_['valdtype'] = ['int64', 'bool', 'int32'][(i // 6) % 3]
+                    if rep % 6 == 5 or (rep % 6 == 2 and not sub):
+                        c_['geo'] = ['int', 'jitter', 'nano', 'int'][(i // 6) % 4]
+                    cases.append(c_)
                     i += 1
         step = 25 if nd == 3 else 50
         for j in range(0, len(cases), step):
@@ -326,7 +353,7 @@ def floors(agg, tier):
             out.append('cases:%s < 6' % cls)
     for k, need in (('op:constructor', 100), ('op:apply_BCs', 100), ('op:solvePDE', 80), ('op:solveExplicitPDE', 80),
                     ('robin_faces', 1000), ('wrap_faces', 200), ('rows-robin', 500), ('scale_invariance', 80), ('plotprofile_faces', 500), ('interior_consistency', 150),
-                    ('no_precalc_round1', 80), ('no_precalc_round2', 40), ('no_precalc_round3', 40), ('side_edit:left', 5), ('side_edit:right', 5), ('side_edit:bottom', 5), ('side_edit:top', 5), ('side_edit:back', 3), ('side_edit:front', 3)):
+                    ('valdtype:int64', 10), ('valdtype:bool', 10), ('geo:int', 10), ('geo:jitter', 8), ('geo:nano', 8), ('no_precalc_round1', 80), ('no_precalc_round2', 40), ('no_precalc_round3', 40), ('side_edit:left', 5), ('side_edit:right', 5), ('side_edit:bottom', 5), ('side_edit:top', 5), ('side_edit:back', 3), ('side_edit:front', 3)):
         if agg['cov'].get(k, 0) < need:
             out.append('%s < %d' % (k, need))
     return out
